@@ -48,10 +48,11 @@ def plan(prop, tier):
         n = 16 if q else 64
         for i in range(n):
             shards.append(('mixed', SEED * 1000 + i, 2000 if q else 30000))
-    if not q and prop in ('C01', 'C10'):
+    if prop in ('C01', 'C10') and (not q or prop == 'C01'):
+        # coverage-guided sessions, bounded by run count: 16 long ones in the thorough tier, 4 short ones on every change
         flavours = flavours + ['fuzz']
-        for i in range(16):
-            shards.append(('fuzz', SEED * 100 + i, 1500000))
+        for i in range(4 if q else 16):
+            shards.append(('fuzz', SEED * 100 + i, 150000 if q else 1500000))
     return flavours, shards
 
 
